@@ -34,6 +34,8 @@ M=[
  ("M8 join with fixed '_' instead of through", F, [("joined := strings.Join(join, format.through)","joined := strings.Join(join, \"_\")")]),
  ("C1 NewConfig trims the template", C, [("\tcfg := &Config{NamingFormat: format}","\tcfg := &Config{NamingFormat: strings.TrimSpace(format)}")]),
  ("C2 DefaultFormat lacks a word", C, [('const DefaultFormat = "godesigner"','const DefaultFormat = "godesign"')]),
+ ("P1 stringx.Title uses a package-level x/text Caser (seeded/C20/shared-title-caser)", S, [("\treturn cases.Title(language.English, cases.NoLower).String(s.source)","\treturn verifCaser.String(s.source)"),("type String struct {","var verifCaser = cases.Title(language.English, cases.NoLower)\n\ntype String struct {")]),
+ ("P2 format.split reuses a package-level buffer, Reset on entry (sequentially invisible)", F, [("\t\tbuffer = bytes.NewBuffer(nil)\n\t)\n","\t\tbuffer = verifBuf\n\t)\n\tbuffer.Reset()\n"),("func getStyle(","var verifBuf = bytes.NewBuffer(nil)\n\nfunc getStyle(")]),
  ("S1 ToSnake joins with empty string", S, [('return strings.Join(target, "_")','return strings.Join(target, "")')]),
  ("S2 ToCamel keeps underscores (remove=false)", S, [("\t\treturn r == '_'\n\t}, true)","\t\treturn r == '_'\n\t}, false)")]),
  ("S3 splitBy drops last piece", S, [("\tif buffer.Len() != 0 {\n\t\tlist = append(list, buffer.String())\n\t}\n\n\treturn list","\treturn list")]),
@@ -56,7 +58,7 @@ for name,f,reps in M:
         src=src.replace(a,b)
     if not ok: continue
     open(DST+f,'w').write(src)
-    env=dict(os.environ, VERIF_REPO='/tmp/verif-mut-C20', VERIF_KNOWN_PRIVATE='/verif/.work/C20-known.txt', VERIF_TIMEOUT='120', VERIF_SHRINKTIME='5s')
+    env=dict(os.environ, VERIF_REPO='/tmp/verif-mut-C20', VERIF_TIMEOUT='120', VERIF_SHRINKTIME='5s')
     r=subprocess.run(['/verif/bin/check','C20'],env=env,capture_output=True,text=True)
     viol=[l for l in r.stdout.splitlines() if l.startswith('VIOLATION') or l.startswith('  rule=')]
     # cases until first failure, from rapid's log lines
